@@ -132,8 +132,8 @@ func Judge(o *reconlib.Outcome) vrun.Result {
 		knownUp[id.String()] = true
 	}
 	aliasOf := map[string]uint32{}
-	for _, d := range o.Downs {
-		aliasOf[d.ID.String()] = d.Alias
+	for id, a := range o.AllDownAlias {
+		aliasOf[id.String()] = a
 	}
 	for _, e := range o.Ledger {
 		if e.Dir != memnet.C2S {
